@@ -114,6 +114,7 @@ class Interp(matlab.Interp):
         else:
             raise Inconclusive(f'{what} on the last opened file is not modelled')
         raw = h.take(int(n) * dt.itemsize)
+        raw = raw[:len(raw) - len(raw) % dt.itemsize]      # at the end of the file fewer items come back
         vals = np.frombuffer(raw, dtype=dt)
         return vals, dt
 
